@@ -743,6 +743,22 @@ theorem dow_periodic (s : Int) (h : -5 ≤ s) : dow (s + 7) = dow s ∧ dow (s +
   omega
 
 open GeoVerif.Calendar in
+/-- **`day(y, m, d, check = true)` accepts ONLY dates of the documented calendar** (converse of `dayChecked_accepts`: together, inside
+the guarded range the checked overload succeeds exactly on the valid dates, and then returns the day number) -/
+theorem dayChecked_only_valid (y m d s : Int) (h : dayChecked y m d = some s) : Valid y m d ∧ s = dayRaw y m d :=
+  dayChecked_sound y m d s h
+
+open GeoVerif.Calendar in
+/-- the week day advances by one along the documented calendar (also across the eleven days dropped in September 1752) -/
+theorem dow_next (y m d : Int) (h : Valid y m d) :
+    dow (dayRaw (nextDate y m d).1 (nextDate y m d).2.1 (nextDate y m d).2.2) = (dow (dayRaw y m d) + 1) % 7 := by
+  rw [(day_next y m d h).2]
+  exact (dow_periodic (dayRaw y m d) (by have := day_pos y m d h; omega)).2.1
+
+open GeoVerif.Calendar in
+example : dayChecked 2024 2 29 = some (dayRaw 2024 2 29) ∧ dayChecked 1752 9 10 = none ∧ dayChecked 1900 2 29 = none := by decide
+
+open GeoVerif.Calendar in
 /-- documented anchors: 0001-01-01 is day 1 and a Saturday; 1752-09-02 (Wednesday) is followed by 1752-09-14 (Thursday) = day 639799;
     2000-01-01 was a Saturday, 1970-01-01 a Thursday; 1700 and 1752 have a February 29, 1800 and 1900 do not, 2000 does -/
 theorem calendar_anchors :
